@@ -117,9 +117,11 @@ THIRD = {
     "offer_bcast": " I --- 29:111111 63:262142 --:------ 1FC9 012 0022F17669E7001FC97669E7",
     "accept_other": " W --- 01:999999 34:111111 --:------ 1FC9 006 0023090F423F",
     "confirm_other": " I --- 34:111111 01:999999 --:------ 1FC9 006 00230987B207",
+    # a bystander's periodic device-info broadcast (10E0 is what the optional addenda phase consists of)
+    "info_other": " I --- 32:111111 63:262142 --:------ 10E0 038 000001C8270901" + "67" + "FFFFFFFFFFFF0D0207E3564D4E2D31354C46303100000000000000000000",
 }
 
-THIRD_DEVICES = {"34:111111": {"class": "THM"}, "29:111111": {"class": "REM"}, "01:999999": {"class": "CTL"}}
+THIRD_DEVICES = {"34:111111": {"class": "THM"}, "29:111111": {"class": "REM"}, "01:999999": {"class": "CTL"}, "32:111111": {"class": "FAN"}}
 
 BENIGN = ("rep", "third")  # (a cancelled attempt is judged like a faulty one: it must end cleanly and be retryable)
 
